@@ -1,5 +1,6 @@
 import Driver.SimStep
 import Marwood.Heap.Check
+import Marwood.Vm.Verify
 /-!
 Driver command `simgood`: the executable counterparts of the side conditions `Good` that the heap
 simulation theorems (Lemmas/SimMain.lean, T03.5 / T13.3) assume of every state along a run, evaluated on a
@@ -109,6 +110,57 @@ def goodICheck (syn : Bool) (s : St CHeap) : Option String :=
       if argBlockB s.stack (s.stack.sp - 2) then none else some "disc-enter"
     | _ => none
 
+/-! ## the value-typed frame of the current instruction (`Lemmas/StackWF*.lean`: `MatchSt` / `Frames.frame`)
+
+Executable counterpart of what WF-stack over the value-typed verifier says about the CURRENT frame of a real
+state: the code object `ip.0` points to passes `Verify.verifyLam`; the temporaries above the frame header are as
+many as the verifier's abstract stack at `ip.1` says and every cell typed `val` / `argc n` holds a value / that
+`ArgumentCount`; under a CALL / TCALL the argument block holds values; in a prologue the argument block CALL left
+holds values; a complete frame has at least `argNeed` argument cells, each holding a value. (Entry code runs at
+the entry stack pointer 0.) Not evaluated on hand-assembled bytecode. -/
+
+def cellOkB : Verify.ACell → VCell → Bool
+  | .any, _ => true
+  | .val, v => valueB v
+  | .argc n, v => decide (v = .argc n)
+
+def matchAtB (st : Stack) : List Verify.ACell → Nat → Nat → Bool
+  | [], top, lo => top == lo
+  | t :: r, top, lo => decide (lo < top) && cellOkB t (st.cells[top]?.getD .undefined) && matchAtB st r (top - 1) lo
+
+def rangeValsB (st : Stack) (lo hi : Nat) : Bool :=
+  (List.range (hi + 1)).all fun i => !(decide (lo < i)) || valueB (st.cells[i]?.getD .undefined)
+
+def typedCheck (s : St CHeap) : Option String :=
+  match lambdaAt s.heap s.ipL with
+  | none => none
+  | some l =>
+    match Verify.verifyLam l.bc with
+    | none => some "typed-reject"
+    | some t =>
+      let sp := s.stack.sp
+      let cell := fun (i : Nat) => s.stack.cells[i]?.getD .undefined
+      let lo := if t.entry then 0 else s.bp + 4
+      let argsOk : Bool := t.entry || (match cell (s.bp + 1) with
+        | .argc n => decide (n ≤ s.bp) && decide (Verify.argNeed l.bc ≤ n) && decide (Verify.argNeed l.bc ≤ l.args.length) &&
+            rangeValsB s.stack (s.bp - n) s.bp
+        | _ => false)
+      match Verify.stateAt t.tm s.ipO with
+      | none => none
+      | some (.body a) =>
+        if !matchAtB s.stack a sp lo then some "typed-temps" else if !argsOk then some "typed-args" else none
+      | some (.call a) =>
+        (match cell sp with
+         | .argc m =>
+           if !(decide (lo + m + 1 ≤ sp) && rangeValsB s.stack (sp - 1 - m) (sp - 1)) then some "typed-block"
+           else if !matchAtB s.stack a (sp - 1 - m) lo then some "typed-temps"
+           else if !argsOk then some "typed-args" else none
+         | _ => some "typed-block")
+      | some .pre =>
+        (match cell (sp - 2) with
+         | .argc n => if decide (n + 3 ≤ sp) && rangeValsB s.stack (sp - 3 - n) (sp - 3) then none else some "typed-pre"
+         | _ => some "typed-pre")
+
 def isSynthetic (info : String) : Bool := (info.splitOn "+syn").length > 1
 
 def handle (args : List String) : Option String :=
@@ -123,8 +175,11 @@ def handle (args : List String) : Option String :=
       | some e => "bad " ++ e
       | none =>
         match goodICheck (isSynthetic info) s with
-        | none => "ok"
-        | some e => "bad " ++ e)
+        | some e => "bad " ++ e
+        | none =>
+          match (if isSynthetic info then none else typedCheck s) with
+          | none => "ok"
+          | some e => "bad " ++ e)
   | [] => none
 
 end Marwood.Driver.SimGood
